@@ -1,25 +1,18 @@
 /-
-C20 — helper lemmas, part 3: files (`loadFile`), the static passes, the `_partial` theorem.
+C20 — helper lemmas, part 3: files (`loadFile`), the declaration loop as the guard of the later
+unguarded operations, the static passes; `check` never gets stuck.
 -/
 import SnowModel.Proofs.C20a
 
 namespace SnowModel.ParseCheck
 
+/-- what `merge_options` relies on: the option name can be hashed -/
 def optOk (o : KVs) : Prop :=
   match lookup o "option" with
   | some v => v.hashable = true
   | none => True
 
-def TopOk (t : Top) : Prop := (∀ o ∈ t.options, optOk o) ∧ MacOk t.macros
-
-def StmtOk (s : Y) : Prop :=
-  ∃ kvs, s = .map kvs ∧ okNode kvs = true ∧
-    (getTruthy kvs "object" = true ∨ getTruthy kvs "var" = true)
-
-def EnvOk (env : Env) : Prop :=
-  ∀ p ∈ env.files, match p.2 with
-    | .doc d => okDoc d = true
-    | .yamlError => True
+def TopOk (t : Top) : Prop := ∀ o ∈ t.options, optOk o
 
 theorem lookup_list_mem {α β : Type} [BEq α] {l : List (α × β)} {k : α} {v : β}
     (h : l.lookup k = some v) : ∃ k', (k', v) ∈ l := by
@@ -61,22 +54,6 @@ theorem foldlM_inv {σ α : Type} {Q : Site → Prop} {G : Ref → Prop} {P : σ
 
 /-! ### top-level elements -/
 
-theorem okTopElem_map {kvs : KVs} (h : okTopElem (.map kvs) = true) :
-    okNode kvs = true
-    ∧ (∀ v, lookup kvs "macro" = some v → v.hashable = true)
-    ∧ (∀ v, lookup kvs "option" = some v → v.hashable = true)
-    ∧ (∀ v, lookup kvs "plugin" = some v → v.truthy = true → ∃ s, v = .str s ∧ countDots s ≠ 0)
-    ∧ (∀ s, lookup kvs "include_file" = some (.str s) → startsWithSlash s = false) := by
-  simp only [okTopElem, Bool.and_eq_true] at h
-  obtain ⟨⟨⟨⟨h1, h2⟩, h3⟩, h4⟩, h5⟩ := h
-  refine ⟨h1, ?_, ?_, ?_, ?_⟩
-  · intro v hv; rw [hv] at h2; exact h2
-  · intro v hv; rw [hv] at h3; exact h3
-  · intro v hv ht
-    rw [hv] at h4
-    cases v <;> simp_all [Y.truthy]
-  · intro s hs; rw [hs] at h5; simpa using h5
-
 theorem hasCat_inv {cat : String} {o : Y} (h : hasCat cat o = true) :
     ∃ kvs r, o = .map kvs ∧ r ∈ collectionRules ∧ getTruthy kvs r.1 = true ∧ r.2 = cat := by
   unfold hasCat at h
@@ -101,50 +78,6 @@ theorem hasCat_decl {cat : String} {o : Y} (h : hasCat cat o = true)
   refine ⟨kvs, h1, ?_⟩
   rw [← huniq r h2 h4]; exact h3
 
-theorem registerMacros_inv :
-    ∀ (l : List Y) (m : Macros), MacOk m → (∀ o ∈ l, okTopElem o = true) →
-      NS (registerMacros m l) ∧ ∀ m' refs, registerMacros m l = .ok m' refs → MacOk m' := by
-  intro l
-  induction l with
-  | nil =>
-    intro m hm _
-    simp only [registerMacros, pure_eq]
-    refine ⟨safe_ok_nil _, ?_⟩
-    intro m' refs h
-    simp only [Res.ok.injEq] at h
-    rw [← h.1]; exact hm
-  | cons o rest ih =>
-    intro m hm hall
-    have ho := hall o (List.mem_cons_self ..)
-    have hrest : ∀ o ∈ rest, okTopElem o = true := fun x hx => hall x (List.mem_cons_of_mem _ hx)
-    have hnomap : ∀ o' : Y, (∀ kvs, o' ≠ .map kvs) → registerMacros m (o' :: rest) = registerMacros m rest := by
-      intro o' ho'
-      cases o' <;> first | rfl | exact absurd rfl (ho' _)
-    cases o with
-    | map kvs =>
-      simp only [registerMacros, kvsOf]
-      split
-      · rename_i s hs
-        apply ih _ _ hrest
-        intro p hp
-        rcases List.mem_append.mp hp with hp | hp
-        · exact hm p hp
-        · simp only [List.mem_singleton] at hp
-          rw [hp]
-          exact (okTopElem_map ho).1
-      · rename_i v hnot hv
-        have := (okTopElem_map ho).2.1 v hv
-        simp only [this, ↓reduceIte]
-        exact ih m hm hrest
-      · exact ih m hm hrest
-    | null => rw [hnomap _ (by intro _ h; cases h)]; exact ih m hm hrest
-    | bool _ => rw [hnomap _ (by intro _ h; cases h)]; exact ih m hm hrest
-    | int _ => rw [hnomap _ (by intro _ h; cases h)]; exact ih m hm hrest
-    | float _ => rw [hnomap _ (by intro _ h; cases h)]; exact ih m hm hrest
-    | str _ => rw [hnomap _ (by intro _ h; cases h)]; exact ih m hm hrest
-    | date _ => rw [hnomap _ (by intro _ h; cases h)]; exact ih m hm hrest
-    | list _ => rw [hnomap _ (by intro _ h; cases h)]; exact ih m hm hrest
-
 theorem parseVersion_safe {Q : Site → Prop} {G : Ref → Prop} (l : List Y) : Safe Q G (parseVersion l) := by
   unfold parseVersion
   split
@@ -165,117 +98,190 @@ theorem categorize_safe {Q : Site → Prop} {G : Ref → Prop} (o : Y) : Safe Q 
     · exact safe_err _
   · exact safe_err _
 
-theorem checkPlugin_safe (env : Env) (o : Y) (ho : okTopElem o = true) (hc : hasCat "plugin" o = true) :
-    NS (checkPlugin env o) := by
-  obtain ⟨kvs, rfl, ht⟩ := hasCat_decl hc (by
-    intro r hr h
-    simp only [collectionRules, List.mem_cons, List.not_mem_nil, or_false] at hr
-    rcases hr with rfl | rfl | rfl | rfl | rfl | rfl | rfl <;> simp_all)
-  unfold checkPlugin
-  simp only [kvsOf]
-  unfold getTruthy at ht
-  cases hl : lookup kvs "plugin" with
-  | none => simp [hl] at ht
-  | some v =>
-    simp only [hl] at ht
-    obtain ⟨s, rfl, hd⟩ := (okTopElem_map ho).2.2.2.1 v hl ht
-    simp only
-    have : (countDots s == 0) = false := by simpa using hd
-    simp only [this, Bool.false_eq_true, ↓reduceIte]
-    split
-    · exact safe_ok_nil _
-    · exact safe_err _
-
-theorem okDoc_mem {data : List Y} (h : okDoc (.list data) = true) : ∀ o ∈ data, okTopElem o = true := by
-  simpa [okDoc, List.all_eq_true] using h
-
 theorem kvsOf_truthy {o : Y} {k : String} (h : getTruthy (kvsOf o) k = true) : ∃ kvs, o = .map kvs := by
   cases o <;> simp [kvsOf, getTruthy, lookup] at h
   exact ⟨_, rfl⟩
 
-theorem optOk_kvsOf {o : Y} (ho : okTopElem o = true) : optOk (kvsOf o) := by
-  cases o <;> simp only [kvsOf, optOk, lookup] <;> try trivial
-  rename_i kvs
+
+/-! ### the declaration loop guards `registerMacros`, `checkPlugin`, `checkOption` -/
+
+theorem declOk_safe {Q : Site → Prop} {G : Ref → Prop} (kind : String) (o : Y) : Safe Q G (declOk kind o) := by
+  unfold declOk
   split
-  · rename_i v hv; exact (okTopElem_map ho).2.2.1 v hv
-  · trivial
+  · split
+    · split
+      · split
+        · exact safe_ok_nil _
+        · exact safe_err _
+      · exact safe_err _
+    · split
+      · exact safe_ok_nil _
+      · exact safe_err _
+  · exact safe_err _
+
+theorem declOk_option {o : Y} {u : Unit} {refs : List Ref} (h : declOk "option" o = .ok u refs) :
+    optOk (kvsOf o) := by
+  unfold declOk at h
+  unfold optOk
+  split at h
+  · rename_i v hv
+    rw [hv]
+    simp only [show ("option" == "plugin") = false by decide, Bool.false_eq_true, ↓reduceIte] at h
+    split at h
+    · assumption
+    · cases h
+  · cases h
+
+theorem declOk_macro {o : Y} {u : Unit} {refs : List Ref} (h : declOk "macro" o = .ok u refs) :
+    ∀ v, lookup (kvsOf o) "macro" = some v → v.hashable = true := by
+  unfold declOk at h
+  intro v hv
+  rw [hv] at h
+  simp only [show ("macro" == "plugin") = false by decide, Bool.false_eq_true, ↓reduceIte] at h
+  split at h
+  · assumption
+  · cases h
+
+theorem pluginNameOk_dots {s : String} (h : pluginNameOk s = true) : countDots s ≠ 0 := by
+  unfold pluginNameOk at h
+  simp only [Bool.and_eq_true] at h
+  have hc := h.2
+  rw [List.contains_iff_mem] at hc
+  have hm : '.' ∈ s.toList := by
+    have := (List.dropWhile_suffix (fun c => c == '.') (l := s.toList.reverse)).subset hc
+    exact List.mem_reverse.mp this
+  unfold countDots
+  intro h0
+  have : '.' ∈ s.toList.filter (· == '.') := List.mem_filter.mpr ⟨hm, by simp⟩
+  rw [List.length_eq_zero_iff] at h0
+  rw [h0] at this
+  cases this
+
+theorem declOk_plugin {o : Y} {u : Unit} {refs : List Ref} (h : declOk "plugin" o = .ok u refs) :
+    ∃ s, lookup (kvsOf o) "plugin" = some (.str s) ∧ countDots s ≠ 0 := by
+  unfold declOk at h
+  split at h
+  · rename_i v hv
+    simp only [beq_self_eq_true, ↓reduceIte] at h
+    split at h
+    · rename_i s
+      split at h
+      · rename_i hs; exact ⟨s, hv, pluginNameOk_dots hs⟩
+      · cases h
+    · cases h
+  · cases h
+
+theorem registerMacros_safe :
+    ∀ (l : List Y) (m : Macros),
+      (∀ o ∈ l, ∀ v, lookup (kvsOf o) "macro" = some v → v.hashable = true) →
+      NS (registerMacros m l) := by
+  intro l
+  induction l with
+  | nil => intro m _; exact safe_ok_nil _
+  | cons o rest ih =>
+    intro m hall
+    have ho := hall o (List.mem_cons_self ..)
+    have hrest : ∀ x ∈ rest, ∀ v, lookup (kvsOf x) "macro" = some v → v.hashable = true :=
+      fun x hx => hall x (List.mem_cons_of_mem _ hx)
+    simp only [registerMacros]
+    split
+    · exact ih _ hrest
+    · rename_i v hnot hv
+      simp only [ho v hv, ↓reduceIte]
+      exact ih m hrest
+    · exact ih m hrest
+
+theorem checkPlugin_safe (env : Env) (o : Y) {u : Unit} {refs : List Ref}
+    (h : declOk "plugin" o = .ok u refs) : NS (checkPlugin env o) := by
+  obtain ⟨s, hs, hd⟩ := declOk_plugin h
+  unfold checkPlugin
+  rw [hs]
+  simp only
+  have : (countDots s == 0) = false := by simpa using hd
+  simp only [this, Bool.false_eq_true, ↓reduceIte]
+  split
+  · exact safe_ok_nil _
+  · exact safe_err _
+
+theorem mergeVersion_safe {Q : Site → Prop} {G : Ref → Prop} (a b : Option Nat) : Safe Q G (mergeVersion a b) := by
+  unfold mergeVersion
+  split
+  · exact safe_ok_nil _
+  · split
+    · exact safe_ok_nil _
+    · split
+      · exact safe_ok_nil _
+      · exact safe_err _
 
 /-! ### `loadFile` -/
 
-theorem loadFile_inv : ∀ (fuel : Nat) (env : Env) (acc : Top) (doc : Y),
-    EnvOk env → TopOk acc → okDoc doc = true →
-    NS (loadFile fuel env acc doc) ∧
-      ∀ r refs, loadFile fuel env acc doc = .ok r refs → TopOk r.1 ∧ ∀ s ∈ r.2.1, StmtOk s := by
+theorem loadFile_inv : ∀ (fuel : Nat) (env : Env) (stack : List String) (acc : Top) (doc : Y),
+    TopOk acc →
+    NS (loadFile fuel env stack acc doc) ∧
+      ∀ r refs, loadFile fuel env stack acc doc = .ok r refs → TopOk r.1 := by
   intro fuel
   induction fuel with
   | zero =>
-    intro env acc doc _ _ _
+    intro env stack acc doc _
     simp only [loadFile]
     exact ⟨safe_fuel, fun _ _ h => by cases h⟩
   | succ n ih =>
-    intro env acc doc henv hacc hdoc
+    intro env stack acc doc hacc
     cases doc with
     | list data =>
-      have helem := okDoc_mem hdoc
       simp only [loadFile, bind_eq, pure_eq]
-      -- the include fold, with its invariant
-      have hfold := foldlM_inv (Q := fun _ => False) (G := goodRef)
-        (P := fun (st : Top × List Y) => TopOk st.1 ∧ ∀ s ∈ st.2, StmtOk s)
+      have hfold := foldlM_inv (Q := fun _ => False) (G := fun _ => True)
+        (P := fun (st : Top × List Y) => TopOk st.1)
         (f := fun (st : Top × List Y) (inc : Y) =>
           (parseElement (kvsOf inc) "include_file" [] []).bind fun _ =>
             match lookup (kvsOf inc) "include_file" with
             | some (Y.str rel) =>
-              if startsWithSlash rel = true then Res.stuck Site.includeAbs
+              if startsWithSlash rel = true then Res.recipeError Err.syntax
               else
                 match List.lookup rel env.files with
                 | none => Res.recipeError Err.generic
-                | some FileContent.yamlError => Res.recipeError Err.syntax
-                | some (FileContent.doc d) =>
-                  (loadFile n env st.fst d).bind fun sub => Res.ok (sub.fst, st.snd ++ sub.snd.fst) []
+                | some c =>
+                  if stack.contains rel = true then Res.recipeError Err.generic
+                  else
+                    match c with
+                    | FileContent.yamlError => Res.recipeError Err.syntax
+                    | FileContent.doc d =>
+                      (loadFile n env (stack ++ [rel]) st.fst d).bind fun sub => Res.ok (sub.fst, st.snd ++ sub.snd) []
             | x => Res.recipeError Err.syntax)
         (List.filter (fun o => getTruthy (kvsOf o) "include_file") data) (acc, [])
-        ⟨hacc, fun s hs => by cases hs⟩
+        hacc
         (by
-          intro st inc hinc hst
-          have hin := List.mem_filter.mp hinc
-          obtain ⟨kvs, rfl⟩ := kvsOf_truthy (by simpa using hin.2)
-          have hok := okTopElem_map (helem _ hin.1)
-          simp only [kvsOf]
+          intro st inc _ hst
           constructor
           · apply safe_bind (parseElement_safe ..)
             intro _ _ _
             split
-            · rename_i rel hrel
-              simp only [hok.2.2.2.2 rel hrel, Bool.false_eq_true, ↓reduceIte]
-              split
+            · split
               · exact safe_err _
-              · exact safe_err _
-              · rename_i d hd
-                obtain ⟨k', hk'⟩ := lookup_list_mem hd
-                have hdok : okDoc d = true := henv _ hk'
-                apply safe_bind (ih env st.1 d henv hst.1 hdok).1
-                intro _ _ _; exact safe_ok_nil _
+              · split
+                · exact safe_err _
+                · split
+                  · exact safe_err _
+                  · split
+                    · exact safe_err _
+                    · apply safe_bind (ih env _ st.1 _ hst).1
+                      intro _ _ _; exact safe_ok_nil _
             · exact safe_err _
           · intro s' refs h
             obtain ⟨_, r1, r2, h1, h2, _⟩ := bind_ok_inv h
             split at h2
-            · rename_i rel hrel
-              simp only [hok.2.2.2.2 rel hrel, Bool.false_eq_true, ↓reduceIte] at h2
-              split at h2
+            · split at h2
               · cases h2
-              · cases h2
-              · rename_i d hd
-                obtain ⟨k', hk'⟩ := lookup_list_mem hd
-                have hdok : okDoc d = true := henv _ hk'
-                obtain ⟨sub, r3, r4, h3, h4, _⟩ := bind_ok_inv h2
-                simp only [Res.ok.injEq] at h4
-                rw [← h4.1]
-                have := (ih env st.1 d henv hst.1 hdok).2 sub r3 h3
-                refine ⟨this.1, ?_⟩
-                intro s hs
-                rcases List.mem_append.mp hs with hs | hs
-                · exact hst.2 s hs
-                · exact this.2 s hs
+              · split at h2
+                · cases h2
+                · split at h2
+                  · cases h2
+                  · split at h2
+                    · cases h2
+                    · obtain ⟨sub, r3, r4, h3, h4, _⟩ := bind_ok_inv h2
+                      simp only [Res.ok.injEq] at h4
+                      rw [← h4.1]
+                      exact (ih env _ st.1 _ hst).2 sub r3 h3
             · cases h2)
       constructor
       · apply safe_bind
@@ -286,44 +292,47 @@ theorem loadFile_inv : ∀ (fuel : Nat) (env : Env) (acc : Top) (doc : Y),
         · intro _ _ _
           apply safe_bind hfold.1
           intro r refs hr
-          have hr' := hfold.2 r refs hr
-          have hmac := registerMacros_inv (data.filter (hasCat "macro")) r.1.macros hr'.1.2
-            (fun o ho => helem o (List.mem_filter.mp ho).1)
-          apply safe_bind hmac.1
-          intro macros _ _
+          apply safe_bind (safe_forR (fun o _ => declOk_safe "option" o))
+          intro _ _ _
+          apply safe_bind (safe_forR (fun o _ => declOk_safe "macro" o))
+          intro _ _ hmac
+          apply safe_bind (safe_forR (fun o _ => declOk_safe "plugin" o))
+          intro _ _ hplug
           apply safe_bind
-          · apply safe_forR
+          · apply registerMacros_safe
             intro o ho
-            have := List.mem_filter.mp ho
-            exact checkPlugin_safe env o (helem o this.1) this.2
-          · intro _ _ _
-            apply safe_bind (parseVersion_safe _)
-            intro _ _ _; exact safe_ok_nil _
+            obtain ⟨rr, hrr⟩ := forR_ok_mem hmac o ho
+            exact declOk_macro hrr
+          · intro macros _ _
+            apply safe_bind
+            · apply safe_forR
+              intro o ho
+              obtain ⟨rr, hrr⟩ := forR_ok_mem hplug o ho
+              exact checkPlugin_safe env o hrr
+            · intro _ _ _
+              apply safe_bind (parseVersion_safe _)
+              intro _ _ _
+              apply safe_bind (mergeVersion_safe _ _)
+              intro _ _ _; exact safe_ok_nil _
       · intro res refs h
         obtain ⟨_, r1, r2, h1, h2, _⟩ := bind_ok_inv h
         obtain ⟨r, r3, r4, h3, h4, _⟩ := bind_ok_inv h2
         have hr' := hfold.2 r r3 h3
-        have hmac := registerMacros_inv (data.filter (hasCat "macro")) r.1.macros hr'.1.2
-          (fun o ho => helem o (List.mem_filter.mp ho).1)
-        obtain ⟨macros, r5, r6, h5, h6, _⟩ := bind_ok_inv h4
+        obtain ⟨_, r5, r6, h5, h6, _⟩ := bind_ok_inv h4
         obtain ⟨_, r7, r8, h7, h8, _⟩ := bind_ok_inv h6
-        obtain ⟨version, r9, r10, h9, h10, _⟩ := bind_ok_inv h8
-        simp only [Res.ok.injEq] at h10
-        rw [← h10.1]
-        refine ⟨⟨?_, hmac.2 macros r5 h5⟩, ?_⟩
-        · intro o ho
-          rcases List.mem_append.mp ho with ho | ho
-          · exact hr'.1.1 o ho
-          · obtain ⟨x, hx, rfl⟩ := List.mem_map.mp ho
-            exact optOk_kvsOf (helem x (List.mem_filter.mp hx).1)
-        · intro s hs
-          rcases List.mem_append.mp hs with hs | hs
-          · exact hr'.2 s hs
-          · have hs' := List.mem_filter.mp hs
-            obtain ⟨kvs, r, rfl, hr1, hr2, hr3⟩ := hasCat_inv hs'.2
-            refine ⟨kvs, rfl, (okTopElem_map (helem _ hs'.1)).1, ?_⟩
-            simp only [collectionRules, List.mem_cons, List.not_mem_nil, or_false] at hr1
-            rcases hr1 with rfl | rfl | rfl | rfl | rfl | rfl | rfl <;> simp_all
+        obtain ⟨_, r9, r10, h9, h10, _⟩ := bind_ok_inv h8
+        obtain ⟨macros, r11, r12, h11, h12, _⟩ := bind_ok_inv h10
+        obtain ⟨_, r13, r14, h13, h14, _⟩ := bind_ok_inv h12
+        obtain ⟨own, r15, r16, h15, h16, _⟩ := bind_ok_inv h14
+        obtain ⟨version, r17, r18, h17, h18, _⟩ := bind_ok_inv h16
+        simp only [Res.ok.injEq] at h18
+        rw [← h18.1]
+        intro o ho
+        rcases List.mem_append.mp ho with ho | ho
+        · exact hr' o ho
+        · obtain ⟨x, hx, rfl⟩ := List.mem_map.mp ho
+          obtain ⟨rr, hrr⟩ := forR_ok_mem h5 x hx
+          exact declOk_option hrr
     | null => simp only [loadFile]; exact ⟨safe_err _, fun _ _ h => by cases h⟩
     | bool _ => simp only [loadFile]; exact ⟨safe_err _, fun _ _ h => by cases h⟩
     | int _ => simp only [loadFile]; exact ⟨safe_err _, fun _ _ h => by cases h⟩
@@ -334,51 +343,23 @@ theorem loadFile_inv : ∀ (fuel : Nat) (env : Env) (acc : Top) (doc : Y),
 
 /-! ### `parse_recipe` and the static passes -/
 
-theorem okStmts_of_forall : ∀ (l : List Y), (∀ s ∈ l, StmtOk s) → okStmts l = true := by
-  intro l
-  induction l with
-  | nil => intro _; rfl
-  | cons x xs ih =>
-    intro h
-    obtain ⟨kvs, rfl, h1, h2⟩ := h x (List.mem_cons_self ..)
-    simp only [okStmts, Bool.and_eq_true, Bool.or_eq_true]
-    refine ⟨⟨?_, h1⟩, ih (fun s hs => h s (List.mem_cons_of_mem _ hs))⟩
-    rcases h2 with h2 | h2
-    · exact Or.inl (Or.inl h2)
-    · exact Or.inl (Or.inr h2)
-
-theorem envOk_of_avoids {env : Env} {doc : Y} (h : AvoidsKnownHoles env doc = true) :
-    EnvOk env ∧ okDoc doc = true := by
-  simp only [AvoidsKnownHoles, Bool.and_eq_true, List.all_eq_true] at h
-  refine ⟨?_, h.1⟩
-  intro p hp
-  have := h.2 p hp
-  cases hc : p.2 with
-  | yamlError => trivial
-  | doc d => simpa [hc] using this
-
-theorem parseRecipe_inv (fuel : Nat) (env : Env) (doc : Y) (h : AvoidsKnownHoles env doc = true) :
+theorem parseRecipe_inv (fuel : Nat) (env : Env) (doc : Y) :
     NS (parseRecipe fuel env doc) ∧
       ∀ p refs, parseRecipe fuel env doc = .ok p refs → ∀ o ∈ p.options, optOk o := by
-  obtain ⟨henv, hdoc⟩ := envOk_of_avoids h
-  have htop : TopOk {} := by
-    constructor
-    · intro o ho; cases ho
-    · intro p hp; cases hp
-  have hload := loadFile_inv fuel env {} doc henv htop hdoc
+  have htop : TopOk {} := by intro o ho; cases ho
+  have hload := loadFile_inv fuel env [] {} doc htop
   simp only [parseRecipe, bind_eq, pure_eq]
   constructor
   · apply safe_bind hload.1
     intro r refs hr
-    have hr' := hload.2 r refs hr
-    apply safe_bind ((allNS fuel).stmts r.1.macros true r.2.1 hr'.1.2 (okStmts_of_forall _ hr'.2))
+    apply safe_bind ((allNS fuel).stmts r.1.macros [] true r.2)
     intro _ _ _; exact safe_ok_nil _
   · intro p refs hp
     obtain ⟨r, r1, r2, h1, h2, _⟩ := bind_ok_inv hp
     obtain ⟨stmts, r3, r4, h3, h4, _⟩ := bind_ok_inv h2
     simp only [Res.ok.injEq] at h4
     rw [← h4.1]
-    exact (hload.2 r r1 h1).1.1
+    exact hload.2 r r1 h1
 
 theorem checkOption_not_stuck {o : KVs} (h : optOk o) : (checkOption o).isStuck = false := by
   unfold checkOption
@@ -390,10 +371,14 @@ theorem checkOption_not_stuck {o : KVs} (h : optOk o) : (checkOption o).isStuck 
     split <;> rfl
   · rfl
 
-/-- documents that avoid the known holes never get stuck -/
-theorem check_not_stuck_of_avoids (fuel : Nat) (env : Env) (doc : Y)
-    (h : AvoidsKnownHoles env doc = true) : (check fuel env doc).isStuck = false := by
-  have hp := parseRecipe_inv fuel env doc h
+theorem checkRef_not_stuck (r : Ref) : (checkRef r).isStuck = false := by
+  unfold checkRef
+  simp only
+  split <;> rfl
+
+/-- no document gets the validation layer stuck -/
+theorem check_not_stuck (fuel : Nat) (env : Env) (doc : Y) : (check fuel env doc).isStuck = false := by
+  have hp := parseRecipe_inv fuel env doc
   unfold check
   cases hr : parseRecipe fuel env doc with
   | ok p refs =>
@@ -401,7 +386,7 @@ theorem check_not_stuck_of_avoids (fuel : Nat) (env : Env) (doc : Y)
     have hopt : (forR checkOption p.options).isStuck = false :=
       forR_not_stuck (fun o ho => checkOption_not_stuck (hp.2 p refs hr o ho))
     have href : (forR checkRef refs).isStuck = false :=
-      forR_not_stuck (fun x hx => hp.1.2 p refs hr x hx)
+      forR_not_stuck (fun x _ => checkRef_not_stuck x)
     cases ho : forR checkOption p.options with
     | ok _ _ =>
       simp only
